@@ -21,8 +21,10 @@
 import Hy.Base.Bytes
 import Hy.Base.Res
 import Hy.Gen.Extras
+import Hy.Model.HopAddr
 namespace Hy.Hop
 open Hy
+open Hy.HopAddr (IP Dest)
 
 /-- what the model tracks of one local UDP socket -/
 structure Sock where
@@ -46,8 +48,8 @@ def upd (f : Nat → Sock) (k : Nat) (v : Sock) : Nat → Sock := fun i => if i 
 def closeSock (f : Nat → Sock) (k : Nat) : Nat → Sock := upd f k { f k with closed := true }
 
 structure St where
-  /-- `Addrs` (one per port of the union; `nil` after Close) -/
-  ports : List Nat
+  /-- `Addrs` (one UDP destination per port of the union; `nil` after Close) -/
+  ports : List Dest
   prev : Option Nat
   cur : Nat
   addrIndex : Nat
@@ -87,7 +89,7 @@ inductive Out where
   | hopOk (new : Nat) (closedPrev : Option Nat)
   | hopListenErr
   | hopClosed
-  | wrote (k : Nat) (port : Nat)
+  | wrote (k : Nat) (dst : Dest)
   | writeSockErr (k : Nat)
   | writeClosed
   | queued
@@ -260,14 +262,14 @@ def normalized (c : Interval) : Option Interval :=
 def nextHopInterval (c : Interval) (r : Int) : Int :=
   if c.min = c.max then c.min else c.min + r
 
-def initSt (ports : List Nat) (idx : Nat) : St :=
+def initSt (ports : List Dest) (idx : Nat) : St :=
   { ports := ports, prev := none, cur := 0, addrIndex := idx, closed := false, mark := 1,
     sock := fun _ => Sock.fresh, queue := [], rbuf := 0, wbuf := 0, dl := 0, rdl := 0, wdl := 0,
     atSelect := false }
 
 /-- NewUDPHopPacketConn: `reject` = returned an error (bad interval, or the first listen
     failed: no socket exists); `panic` = `rand.Intn(0)` on an empty address list -/
-def newConn (ports : List Nat) (iv : Interval) (listenOk : Bool) (idx : Nat) : Res St :=
+def newConn (ports : List Dest) (iv : Interval) (listenOk : Bool) (idx : Nat) : Res St :=
   match normalized iv with
   | none => .reject
   | some _ =>
